@@ -1,5 +1,6 @@
 import FxVerif.Proofs.C06
 import FxVerif.Proofs.C05Ext
+import FxVerif.Proofs.C05Prompt
 /-!
 # C06 — outgoing value is released only once the external chain can no longer run it
 
@@ -346,6 +347,33 @@ theorem executed_never_refunded_call_partial (s : State) (h : Nat) (ev : Ev)
     | some b =>
       simp only [hf, hobs]
       simpa [executeBatch, cancelBatches] using happlied c hmem
+
+/-- `executed_never_refunded` for bridge calls over whole histories, partial: along every admissible operation list
+(`AdmissibleRun`: the bridge contract's rules, heights non-decreasing) in which — this is what the code does not
+enforce, see the known finding — every observed bridge-call result has been applied by `ExecuteClaim` before the next
+event is observed (`PromptRun`: no result is pending at an observation), no outgoing bridge call is ever both observed as
+successfully executed on the external chain and refunded on fxcore.  `executed_call_refunded_witness` shows the
+hypothesis cannot be dropped. -/
+theorem executed_never_refunded_call_run_partial (s0 : State) (h0 : IsInit s0) (ops : List Op)
+    (ha : AdmissibleRun s0 {} ops) (hp : PromptRun s0 ops) :
+    ∀ e ∈ (run s0 ops).settled, e.isCall = true → e.how = .refunded → e.id ∉ (run s0 ops).obsSuccess := by
+  have hk := K_run (K_init h0) (J_init h0) (inv_init h0) ops ha hp
+  rw [runExt_fst] at hk
+  exact hk.k1
+
+/-- non-vacuity of `PromptRun` together with `AdmissibleRun`: a bridge call is created, its successful result observed
+and applied, a later event passes the timeout -/
+example : AdmissibleRun (init 1 [((0, 0), 100)] {}) {}
+      [.observe 1000 .other, .bridgeCall 0 7 "0x0000000000000000000000000000000000000001" "ab" "" [(0, 70)],
+       .observe 41319 (.result 1 true), .exec 2, .observe 41320 .other] ∧
+    PromptRun (init 1 [((0, 0), 100)] {})
+      [.observe 1000 .other, .bridgeCall 0 7 "0x0000000000000000000000000000000000000001" "ab" "" [(0, 70)],
+       .observe 41319 (.result 1 true), .exec 2, .observe 41320 .other] := by
+  constructor
+  · simp only [AdmissibleRun, admissible]
+    decide
+  · simp only [PromptRun]
+    decide
 
 /-- non-vacuity: a batch and a bridge call exist, an observation at the batch timeout keeps the batch, one block later
 cancels it -/
